@@ -162,11 +162,19 @@ impl<B: IoBufMut> Framer<B> for LengthDelimited {
             u64::from_le_bytes(len_bytes)
         } as usize;
 
-        if buf.len() < self.length_field_len + len {
+        // `len` is chosen by the peer: `lfl + len` must not overflow
+        let Some(total) = lfl.checked_add(len) else {
+            return Err(io::Error::new(
+                io::ErrorKind::InvalidData,
+                "frame length does not fit in usize",
+            ));
+        };
+
+        if buf.len() < total {
             return Ok(None);
         }
 
-        Ok(Some(Frame::new(self.length_field_len, len, 0)))
+        Ok(Some(Frame::new(lfl, len, 0)))
     }
 }
 
